@@ -1428,6 +1428,12 @@ where
         self.inner.take_user_pings().map(PingPong::new)
     }
 
+    /// Verification hook: snapshot of the stream store and counters.
+    #[cfg(feature = "verif-hooks")]
+    pub fn verif_snapshot(&self) -> crate::verif::StreamsSnapshot {
+        self.inner.verif_snapshot()
+    }
+
     /// Returns the maximum number of concurrent streams that may be initiated
     /// by this client.
     ///
